@@ -66,8 +66,11 @@ fn main() {
         "C01" => props::cpu::run(&ctx, props::cpu::Which::Semantics),
         "C15" => props::cpu::run(&ctx, props::cpu::Which::Cycles),
         "C05" => props::c05::run(&ctx),
+            "C07" => props::c07::run(&ctx),
             "C08" => props::c08::run(&ctx),
+            "C10" => props::c10::run(&ctx),
             "C11" => props::c11::run(&ctx),
+            "C14" => props::c14::run(&ctx),
             "C13" => props::c13::run(&ctx),
         "C09" => props::c09::run(&ctx),
         _ => {
